@@ -295,6 +295,19 @@ class Backend(ABC):
             rule.set_conversion_result(finalized_queries)
             rule.set_conversion_states(states)
             if rule._output:
+                if finalized_queries is queries:
+                    # The stored result stays unfinalized for the correlation rules that embed it. A
+                    # rule that is emitted on its own as well (generate) is emitted finalized.
+                    return [
+                        self.finalize_query(
+                            rule,
+                            query,
+                            index,
+                            states[index],
+                            output_format or self.default_format,
+                        )
+                        for index, query in enumerate(queries)
+                    ]
                 return finalized_queries
             else:
                 return []
